@@ -279,7 +279,7 @@ def missing_cases(draw):
     return {'rec': rec, 'lay2': draw(gen.relayout(cols)), 'op': op}
 
 
-ELEMENT_OPS = ('isin', 'via_str_dt', 'clip', 'unique', 'astype')
+ELEMENT_OPS = ('isin', 'via_str_dt', 'clip', 'unique', 'astype', 'iloc', 'loc', 'iter_series', 'iter_tuple', 'values', 'sort_values_axis0')
 
 
 @st.composite
@@ -289,7 +289,7 @@ def element_cases(draw):
     neighbouring columns often share a dtype (so that wide blocks exist): same differential over layouts as `layout_diff`."""
     op = draw(ops.frame_op_strategy(only=ELEMENT_OPS))
     fam = draw(st.sampled_from([('M8[D]', 'M8[D]', '<U3'), ('M8[ns]', 'm8[ns]', 'M8[ns]'), ('int8', 'int8', 'float32'), ('<U3', '<U3', 'M8[D]', 'int64'),
-                                ('M8[D]', 'M8[D]', 'object', 'bool')]))
+                                ('M8[D]', 'M8[D]', 'object', 'bool'), ('object:int', 'int64', 'object:int'), ('<U1', '<U4', 'object:str')]))
     rec = draw(gen.frame_recipe(min_rows=1, max_rows=4, min_cols=2, max_cols=6, kinds=fam, index_kinds=('auto', 'str'), column_kinds=('auto', 'str')))
     cols = gen.block_columns(rec['blocks'])
     return {'rec': rec, 'lay2': draw(gen.relayout(cols)), 'op': op}
